@@ -1,3 +1,4 @@
+from harness import ppool
 import json
 import multiprocessing as mp
 import os
@@ -254,7 +255,7 @@ def run(chk):
     n = 160 if chk.tier == 'quick' else 2400
     ctx = mp.get_context('fork')
     errors = []
-    with ctx.Pool(min(16, os.cpu_count() or 4), initializer=_init) as pool:
+    with ppool.Pool(ctx, min(16, os.cpu_count() or 4), initializer=_init) as pool:
         for res in pool.imap_unordered(case, [(chk.seed * 32452843 + i, 40) for i in range(n)]):
             if 'error' in res:
                 errors.append(res['error'])
